@@ -1,5 +1,5 @@
 import subprocess, sys, os, re, json, time
-REPO='/tmp/w/c05/repo'; VERIF='/tmp/w/c05/verif'
+REPO=os.environ.get('ST_REPO','/tmp/w/c05b/repo'); VERIF=os.environ.get('ST_VERIF','/tmp/w/c05b/verif')
 MGR='src/transport/manager/mod.rs'; PS='src/transport/manager/peer_state.rs'; LIM='src/transport/manager/limits.rs'
 def rep(path, old, new, count=1):
     p=os.path.join(REPO,path); s=open(p).read()
@@ -39,6 +39,38 @@ MUT = {
  'M6 on_connection_opened: pending entry not re-inserted after negotiate': ('C05', lambda: rep(MGR,
    "                self.pending_connections.insert(connection_id, peer);\n\n                Ok(())\n            }\n            Err(err) => {",
    "                let _ = peer;\n\n                Ok(())\n            }\n            Err(err) => {")),
+ # ---- C05, protocol-notification paths (round c05b)
+ 'P1 seeded C05-a2: OpenFailure notification is try_send only (lost when the protocol channel is full)': ('C05', lambda:
+   subprocess.run(['git','-C',REPO,'apply','/verif/seeded/C05-a2/patch.diff'],check=True)),
+ 'P2 revert fix e94cf63 (failed queued DialPeer is only logged)': ('C05', lambda: revert('e94cf63')),
+ 'P3 TransportEvent::DialFailure: blocking fallback dropped when the protocol channel is clogged': ('C05', lambda: rep(MGR,
+   """                                                        let _ = context
+                                                            .tx
+                                                            .send(InnerTransportEvent::DialFailure {
+                                                                peer,
+                                                                addresses: vec![address.clone()],
+                                                            })
+                                                            .await;""",
+   """                                                        let _ = &context.tx;""")),
+ 'P4 limit-rejected dialed connection: protocols are not told (loop removed)': ('C05', lambda: rep(MGR,
+   """                                        for context in self.protocols.values() {
+                                            let event = InnerTransportEvent::DialFailure {
+                                                peer,
+                                                addresses: vec![address.clone()],
+                                            };
+                                            if let Err(error) = context.tx.try_send(event) {
+                                                let _ = context.tx.send(error.into_inner()).await;
+                                            }
+                                        }
+""", "")),
+ 'P5 OpenFailure: only the first installed protocol is told (take(1))': ('C05', lambda: rep(MGR,
+   """                                    for (protocol, context) in &self.protocols {
+                                        let _ = match context""",
+   """                                    for (protocol, context) in self.protocols.iter().take(1) {
+                                        let _ = match context""")),
+ 'P6 failed queued DialPeer reported also for AlreadyConnected (condition dropped)': ('C05', lambda: rep(MGR,
+   "                                if !std::matches!(error, Error::AlreadyConnected) {",
+   "                                if true {")),
  # ---- C06
  'N1 can_accept_connection: incoming >= max  ->  > max (off by one)': ('C06', lambda: rep(LIM,
    """        if is_listener {
@@ -107,6 +139,24 @@ MUT = {
                 connection_id,
             };
             match context.state.dial_single_address(dial_record) {"""))),
+ 'H5 OpenFailure: protocols notified with send().await only (no try_send first; same behaviour)': ('C05', lambda: rep(MGR,
+   """                                        let _ = match context
+                                            .tx
+                                            .try_send(InnerTransportEvent::DialFailure {
+                                                peer,
+                                                addresses: addresses.clone(),
+                                            }) {
+                                            Ok(_) => Ok(()),
+                                            Err(_) => {""",
+   """                                        let _ = match Err::<(), ()>(()) {
+                                            Ok(_) => Ok(()),
+                                            Err(_) => {""")),
+ 'H6 DialPeer arm: error handling through a helper variable and let-else (same behaviour)': ('C05', lambda: rep(MGR,
+   """                                if !std::matches!(error, Error::AlreadyConnected) {
+                                    for context in self.protocols.values() {""",
+   """                                let silent = std::matches!(error, Error::AlreadyConnected);
+                                if !silent {
+                                    for context in self.protocols.values().collect::<Vec<_>>() {""")),
  'H3 limits: comparisons rewritten (!(len < max)), both removals in one expression': ('C06', lambda: (rep(LIM,
    "if self.incoming_connections.len() >= max_incoming_connections {", "if !(self.incoming_connections.len() < max_incoming_connections) {", 99),
    rep(LIM, "        self.incoming_connections.remove(&connection_id);\n        self.outgoing_connections.remove(&connection_id);", "        let _ = (\n            self.incoming_connections.remove(&connection_id),\n            self.outgoing_connections.remove(&connection_id),\n        );"))),
@@ -143,4 +193,4 @@ for name,(pid,fn) in MUT.items():
         res.append((name,q,'exit %d'%p.returncode,' | '.join(tail),detail,round(time.time()-t,1)))
         print(res[-1],flush=True)
 subprocess.run(['git','-C',REPO,'reset','--hard','-q','HEAD'],check=True)
-json.dump(res,open('/tmp/w/c05/st/results.json','w'),indent=1)
+json.dump(res,open(os.environ.get('ST_OUT','/tmp/w/c05b/st/results.json'),'w'),indent=1)
